@@ -198,7 +198,9 @@ pub fn run(ctx: &Ctx) -> (CheckMeta, Acc) {
         }
         // end-to-end part: a few real constant-product pool histories (shared driver with C01)
         if ctx.replay.as_ref().map(|r| r.history >= 1_000_000_000).unwrap_or(true) {
-            crate::mon::pools::run_cp_histories(ctx, sh, acc, ctx.tier.pick(6, 400), ctx.tier.pick(60, 150), "C02");
+            if !ctx.pure_only {
+                crate::mon::pools::run_cp_histories(ctx, sh, acc, ctx.tier.pick(6, 400), ctx.tier.pick(60, 150), "C02");
+            }
         }
     });
     let meta = CheckMeta {
